@@ -388,9 +388,36 @@ def gen_midnil(rng):
     return (kind, None, [], [lhs, body])
 
 
+def gen_mixed(rng):
+    """Joins whose function returns a BARE singleton (Plus(From x, nil) is the From object itself) for some elements of
+    the left-hand sequence and a two-element sequence for others, the singleton coming first: anything a join iterator
+    remembers about the shape of the first inner sequence must not leak into the later ones."""
+    n = rng.randrange(2, 5)
+    keys = [rng.randrange(0, 10) for _ in range(n)]
+    keys[0] |= 1                                  # first element: the filter below rejects it -> bare singleton
+    keys[rng.randrange(1, n)] &= ~1               # a later one: accepted -> two elements
+    kind = rng.choice(["FS", "FS", "PJN", "TS", "JN"])
+    if kind in ("PJN", "TS"):
+        lhs = ("PF", None, [keys[0], 10 + keys[0]], [])
+        for k in keys[1:]:
+            lhs = ("PPL", None, [], [lhs, ("PF", None, [k, 10 + k], [])])
+        if kind == "PJN":
+            body = ("PPL", None, [], [("PF", None, [(0, 0), (1, 3)], []), ("PFI", "keven", [], [("PF", None, [(0, 0), (1, 5)], [])])])
+        else:
+            body = ("PL", None, [], [("F", None, [(1, 1)], []), ("FI", "even", [], [("F", None, [(0, 0)], [])])])
+        return (kind, None, [], [lhs, body])
+    lhs = ("S", None, keys, [])
+    if kind == "FS":
+        body = ("PPL", None, [], [("PF", None, [(0, 0), (0, 11)], []), ("PFI", "keven", [], [("PF", None, [(0, 0), (0, 20)], [])])])
+    else:
+        body = ("PL", None, [], [("F", None, [(0, 7)], []), ("FI", "even", [], [("F", None, [(0, 0)], [])])])
+    return (kind, None, [], [lhs, body])
+
+
 def make_cases(ctx, boost):
     rng = ctx.rng
     trees = [gen_midnil(rng) for _ in range((1500 if ctx.thorough() else 150) * boost)]
+    trees += [gen_mixed(rng) for _ in range((1000 if ctx.thorough() else 100) * boost)]
     small = enumerate_small(3)
     if ctx.thorough():
         trees += small
